@@ -471,7 +471,7 @@ fn main() {
         std::process::exit(if rep.violation_count > 0 { 1 } else { 0 });
     }
     let mut rng = gen::rng(args.seed, args.shard, 19);
-    let n = args.budget(200_000, 4_000_000) / args.nshards.max(1);
+    let n = args.budget(1_600_000, 32_000_000) / args.nshards.max(1);
     for i in 0..n {
         if i % 2 == 0 {
             let d = game_state_doc(&mut rng);
